@@ -29,7 +29,7 @@ func newEpochInput(r *Run, prop string, maxPop, maxEpochs int, tieFreeOnly bool)
 	opts := epochOptions(r.Rng, maxPop)
 	starts := startGenomes()
 	s := starts[r.Rng.Intn(len(starts))]
-	rule := []int{0, 1, 2, 9}[r.Rng.Intn(4)]
+	rule := []int{0, 1, 2, 9, 11}[r.Rng.Intn(5)]
 	if !tieFreeOnly && opts.PopSize <= 12 && r.Rng.Intn(3) == 0 {
 		rule = 3 + r.Rng.Intn(2)
 	}
@@ -425,6 +425,17 @@ func runPhasedProp(r *Run, prop string) error {
 	}
 	if prop == "C10" {
 		c10UnsortedGenes(r)
+		// the PopSize option lowered after the population was built: the turnover may refuse, it must not drop a champion
+		for i := 0; i < r.N(12, 120); i++ {
+			in := newEpochInput(r, prop, 40, 3, true)
+			if in.Opts.PopSize < 20 {
+				in.Opts.PopSize = 20
+			}
+			in.Opts.CompatThreshold = []float64{1, 3}[i%2]
+			in.ShrinkPop = 6 + r.Rng.Intn(in.Opts.PopSize/2) // enough to cut whole trailing species off
+			in.Epochs, in.ShrinkAt = 4, 2+r.Rng.Intn(2)      // by then there are several species
+			runPhased(r, in)
+		}
 		// modular champions (two modules): the unmodified copy includes the modules and their links
 		for i := 0; i < r.N(5, 60); i++ {
 			in := newEpochInput(r, prop, 40, 4, true)
